@@ -682,6 +682,8 @@ func windowRace(lines []string) bool {
 
 // ---------------------------------------------------------------------------------------------
 
+var failCount = map[string]int{}
+
 type result struct {
 	c  cfg
 	ev []string
@@ -778,8 +780,13 @@ func emit(r *hx.Run, sub uint64, res result) (failed bool) {
 		if len(excerpt) > 60 {
 			excerpt = excerpt[:60]
 		}
-		r.Fail(end, fmt.Sprintf("%s: trace=%v", res.c.line(), excerpt),
-			map[string]string{"api": "kvstore.BatchedWriter", "oracle": end, "trigger": trig})
+		// at most 40 findings per signature, so that the recorded ones never crowd out a new one
+		failCount[end+"/"+trig]++
+		if failCount[end+"/"+trig] <= 40 {
+			r.Fail(end, fmt.Sprintf("%s: trace=%v", res.c.line(), excerpt),
+				map[string]string{"api": "kvstore.BatchedWriter", "oracle": end, "trigger": trig})
+		}
+		r.Count("finding:" + end + "/" + trig)
 	}
 	r.Sample(r.CaseLines())
 
